@@ -32,3 +32,13 @@ impl core::fmt::Debug for Value {
     #[verifier::external_body]
     fn fmt(&self, f: &mut core::fmt::Formatter<'_>) -> core::fmt::Result { unimplemented!() }
 }
+
+// `#[from]` on Error::NumericOverflow (thiserror): ASSUMED to generate the obvious From impl
+impl vstd::std_specs::convert::FromSpecImpl<TryFromIntError> for Error {
+    open spec fn obeys_from_spec() -> bool { true }
+    open spec fn from_spec(v: TryFromIntError) -> Error { overflow_err(v) }
+}
+impl From<TryFromIntError> for Error {
+    #[verifier::external_body]
+    fn from(source: TryFromIntError) -> Error { unimplemented!() }
+}
